@@ -95,6 +95,18 @@ func c06Profiles() []string {
 	}
 	out = append(out, mk("under or", prefixSets[2], M("or", []any{q(0), q(1), M("not", q(2))})))
 	out = append(out, mk("under and", prefixSets[0], M("and", []any{q(1), q(0), M("propertyConstraints", M("ex.c1", M("minCount", 1), "ex.c2", M("maxCount", 1), "ex.p1", M("in", strs("v", "w"))))})))
+	// wide connectives: six alternatives / a negated conjunction of five, each operand drawing generated names
+	// (a translator that handles the operands of a wide connective out of order, or concurrently, shows here)
+	wide := func(n int) []any {
+		var ops []any
+		for i := 0; i < n; i++ {
+			k, val := c06Quant(i, fmt.Sprintf("ex.c%d", i%4+1), leaf(i))
+			ops = append(ops, M("propertyConstraints", M(k, val)))
+		}
+		return ops
+	}
+	out = append(out, mk("wide or", prefixSets[0], M("or", wide(6))))
+	out = append(out, mk("not wide and", prefixSets[1], M("not", M("and", wide(5)))))
 	return out
 }
 
@@ -132,7 +144,7 @@ func c06Graph() *Graph {
 func init() {
 	Register(Meta{
 		ID: "C06", Level: "model_checking", LongCases: true,
-		Rule:        "instrumented build: every `range` over a map in the repository is rewritten to iterate in the order dictated by the explorer (site list in the evidence). Profiles: m=2..4 sibling quantified constraints under one propertyConstraints map, the same nested to depth 2, under or/and/not mixed with plain constraints, with 1-3 prefixes. For each profile: pass keys = every order of every YAML key map (all permutations for <=4 keys, unbounded composition); pass others = every other map-range site at deviation bound 1 (2n rotations/reversals for maps with >4 keys); thorough adds pass all2 = every site at bound 2 (all profiles but the two-level one). Oracle: all executions of Validate(profile, data, fixed clock) yield one report byte string and all executions of GenerateRego after a counter reset yield one code byte string. An uninstrumented pass repeats every profile 30x in one process (Go's own random map order) as a cross-check that the seam is complete. Pass clocks: the repository's time.Now() is routed through a seam that jumps by an hour on every reading; for 9 configured clock values (ordinary, zero Time, Unix epoch in two locations, 1 ns after it, 1960, 9999, two non-UTC zones) x dateCreated on/off, three consecutive identical calls must give identical bytes. Pass history: for 13 profiles x 8 documents chosen to collide on cheap cache keys and shared tables (same profile name / different content, same node ids / different values, failing inputs, a prefix rebound between profiles, the name of a built-in prefix bound to another namespace, a prefix declared by one profile and used undeclared by another, two long profiles that differ late), every ordered pair of Validate calls is executed in one process and each result must equal the result the same call gave before (a call's bytes must not depend on the call made before it).",
+		Rule:        "instrumented build: every `range` over a map in the repository is rewritten to iterate in the order dictated by the explorer (site list in the evidence). Profiles: m=2..4 sibling quantified constraints under one propertyConstraints map, the same nested to depth 2, under or/and/not mixed with plain constraints, with 1-3 prefixes, an `or` of six and a negated `and` of five quantified operands. `go` statements and sync.WaitGroup of the repository are hooked as well: goroutines it starts become scheduler threads whose order is one more deviation. For each profile: pass keys = every order of every YAML key map (all permutations for <=4 keys, unbounded composition); pass others = every other map-range site at deviation bound 1 (2n rotations/reversals for maps with >4 keys); thorough adds pass all2 = every site at bound 2 (all profiles but the two-level one). Oracle: all executions of Validate(profile, data, fixed clock) yield one report byte string and all executions of GenerateRego after a counter reset yield one code byte string. An uninstrumented pass repeats every profile 30x in one process (Go's own random map order) as a cross-check that the seam is complete. Pass clocks: the repository's time.Now() is routed through a seam that jumps by an hour on every reading; for 9 configured clock values (ordinary, zero Time, Unix epoch in two locations, 1 ns after it, 1960, 9999, two non-UTC zones) x dateCreated on/off, three consecutive identical calls must give identical bytes. Pass history: for 13 profiles x 8 documents chosen to collide on cheap cache keys and shared tables (same profile name / different content, same node ids / different values, failing inputs, a prefix rebound between profiles, the name of a built-in prefix bound to another namespace, a prefix declared by one profile and used undeclared by another, two long profiles that differ late), every ordered pair of Validate calls is executed in one process and each result must equal the result the same call gave before (a call's bytes must not depend on the call made before it).",
 		Assumptions: []string{"nondeterminism inside dependencies (OPA, json-gold, encoding/json) is not behind the seam; the uninstrumented repetition pass is the cross-check for it"},
 	}, c06Gen, c06Run)
 	Register(Meta{
@@ -307,7 +319,7 @@ func c06Gen(tier string, emit func(c06Case)) {
 		for k := 0; k < 4; k++ {
 			emit(c06Case{Profile: p, Pass: "others", Part: k, Parts: 4})
 		}
-		if tier == "thorough" && p != 4 {
+		if tier == "thorough" && p != 4 && p < 7 {
 			// (profile 4, two levels of quantified siblings, has too many choice points for bound 2 in the budget:
 			// it is covered by the unbounded key pass and bound 1 elsewhere)
 			for k := 0; k < 16; k++ {
@@ -443,7 +455,7 @@ func c06Run(c *Ctx, cs c06Case) {
 					break
 				}
 			}
-			c.Violate("C06 "+what+" bytes depend on map iteration order at "+site, fmt.Sprintf("profile %d, order deviations %s\n%s\nprofile:\n%s", cs.Profile, schedString(x), firstDiff(ref.Report, r.Report), prof), rc)
+			c.Violate("C06 "+what+" bytes depend on the order chosen at "+site, fmt.Sprintf("profile %d, order deviations %s\n%s\nprofile:\n%s", cs.Profile, schedString(x), firstDiff(ref.Report, r.Report), prof), rc)
 		}
 		c.Max("map_choice_points_in_one_execution", int64(len(x.Points)))
 	}
@@ -470,7 +482,9 @@ func c06Run(c *Ctx, cs c06Case) {
 	if parts < 1 {
 		parts = 1
 	}
-	e := &Explorer{Mk: mk, N: 1, MapChoices: true, SiteOK: siteOK, Bound: bound, Part: cs.Part, Parts: parts, Check: check, Stop: c.Expired}
+	// goroutines the translator may start are scheduler threads: their order is explored like a map order (one
+	// deviation each) in the passes others/all2, and left at the default in the key pass
+	e := &Explorer{Mk: mk, N: 1, MapChoices: true, SiteOK: siteOK, Bound: bound, Part: cs.Part, Parts: parts, Check: check, Stop: c.Expired, NoSched: cs.Pass == "keys", SchedCosts: true}
 	e.Explore()
 	if e.Capped {
 		c.CapHit(fmt.Sprintf("C06 profile %d pass %s stopped by the soft deadline", cs.Profile, cs.Pass))
